@@ -180,6 +180,8 @@ class DataArray(Entity, DataSet):
         dim_index = len(self.dimensions) + 1
         rdim = RangeDimension.create_new(self, dim_index, None)
         rdim.link_data_array(self, index)
+        if self.file.auto_update_timestamps:
+            self.force_updated_at()
         return rdim
 
     def delete_dimensions(self):
